@@ -169,14 +169,41 @@ Definition dremove (cfg : config) (s : state) (p d : nat) : state :=
   let pi := tag_info_for (now s) (peer_at s p) in
   set_peer s p (with_dec pi (upd 0 (p_dec pi) d 0) (p_value pi - get 0 (p_dec pi) d)).
 
-(* decayingTag.Close + the closeTagCh branch *)
+(* decayingTag.Close sets the tag's closed flag at once (bumps are refused from
+   then on) and QUEUES the closure; the loop processes it later.  A queued,
+   unprocessed closure is recorded in the (otherwise unused) nextTick slot of
+   the closed tag as -1: the name is still in knownTags. *)
+Definition dtag_pending (cfg : config) (s : state) (d : nat) : bool :=
+  Nat.ltb d (length (c_dtags cfg)) && snd (get (0, true) (dst s) d) && (fst (get (0, true) (dst s) d) =? -1).
+
+(* decayingTag.Close, the synchronous part only *)
+Definition dcloseq (cfg : config) (s : state) (d : nat) : state :=
+  if negb (dtag_open cfg s d) then s
+  else mkSt (peers s) (prot s) (count s) (now s) (upd (0, true) (dst s) d (-1, true)).
+
+(* RegisterDecayingTag with the name of tag d (same interval / functions):
+   refused while the name is in knownTags - an open tag, or a closed one whose
+   closure the loop has not processed yet; [acc] is what the caller was told.
+   nextTick := lastTick + interval, lastTick being the decayer's last tick. *)
+Definition dreg_allowed (cfg : config) (s : state) (d : nat) : bool :=
+  Nat.ltb d (length (c_dtags cfg)) && snd (get (0, true) (dst s) d) && negb (fst (get (0, true) (dst s) d) =? -1).
+
+Definition dregister (cfg : config) (s : state) (d : nat) (acc : bool) : state :=
+  if acc && Nat.ltb d (length (c_dtags cfg)) then
+    mkSt (peers s) (prot s) (count s) (now s)
+         (upd (0, true) (dst s) d
+              ((now s / c_res cfg) * c_res cfg + eff_interval cfg (get nodtag (c_dtags cfg) d), false))
+  else s.
+
+(* the closeTagCh branch of the loop (delete the name from knownTags, remove
+   the tag's values everywhere); as one step with Close when nothing is queued *)
 Definition dclose (cfg : config) (s : state) (d : nat) : state :=
-  if negb (dtag_open cfg s d) then s else
+  if negb (dtag_open cfg s d || dtag_pending cfg s d) then s else
   mkSt (map (fun pi => if p_tracked pi
                        then with_dec pi (upd 0 (p_dec pi) d 0) (p_value pi - get 0 (p_dec pi) d)
                        else pi) (peers s))
        (prot s) (count s) (now s)
-       (upd (0, true) (dst s) d (fst (get (0, true) (dst s) d), true)).
+       (upd (0, true) (dst s) d (0, true)).
 
 (* Protect / Unprotect *)
 Definition protect (s : state) (p g : nat) : state :=
@@ -318,7 +345,8 @@ Section WithSort.
   | Bump (p d : nat) (delta : Z) | DRemove (p d : nat) | DClose (d : nat)
   | Protect (p g : nat) | Unprotect (p g : nat)
   | Advance (dt : nat)
-  | Trim | ForceTrim.
+  | Trim | ForceTrim
+  | DCloseQ (d : nat) | DRegister (d : nat) (acc : bool).
 
   (* one step: new state and the connections closed by it *)
   Definition step (cfg : config) (s : state) (o : op) : state * list (nat * nat) :=
@@ -336,6 +364,8 @@ Section WithSort.
     | Advance dt => (advance cfg s dt, [])
     | Trim => trim cfg s
     | ForceTrim => (s, force_trim cfg s)
+    | DCloseQ d => (dcloseq cfg s d, [])
+    | DRegister d acc => (dregister cfg s d acc, [])
     end.
 
   Fixpoint run (cfg : config) (s : state) (ops : list op) : state :=
